@@ -19,7 +19,7 @@ std::vector<std::array<int,4> > quad_tuples(int M, bool all) {
 double drop_allow(int D, double mindist) { return D * D * 2e-8 / std::max(mindist, 1e-8); }
 
 int run_c14(const Args& a, Recorder& rec) {
-    Clock clk; std::vector<double> betas = { 1, 10 }; if (a.thorough()) betas.push_back(40);
+    Clock clk; std::vector<double> betas = { 1, 10, 1e3 }; if (a.thorough()) { betas.push_back(40); betas.push_back(200); }      // 1e3: beta x level spacing beyond the exp() overflow threshold
     std::vector<PlanItem> plan = plan_modelspace(a, "g");
     for_each_state(a, rec, plan, [&](Ctx& c) {
         if (stage_states(c, rec, SYM_DEFAULT, 0, true) != ST_OK) return;
